@@ -20,7 +20,7 @@ PROPERTY = "C10"
 REPLAY_FUNC = "run_history"
 RULE = ("E2 BFS: histories of <= D operations from the alphabet {portfolio set-up on grid i with price set j (4x2), stand-alone asset "
         "set-up (3 assets x 2 grids), set-up with the grid set previously (2), split set-up (2), optimise + extract_output, to_json, "
-        "flat portfolio sharing the structured asset's inner assets (2), make_slp (thorough)}; state = canonical hash of all "
+        "flat portfolio sharing the structured asset's inner assets (2), cost samples (2), make_slp (thorough)}; state = canonical hash of all "
         "objects, grids (incl. cached restricted grid and discount factors) and user data; distinct = distinct states; "
         "non-trivial = transition whose call returned a problem that was compared with the fresh-object problem")
 ASSUMPTIONS = ["EAO keeps state only in the objects hashed by mc/history.py (module dictionaries are hashed before/after each run and must not change)",
@@ -44,7 +44,7 @@ def alphabet(tier):
     for k in ("con", "sto", "st"):
         for gi in (0, 2):
             ops.append(("A", k, gi))
-    ops += [("SP", 0), ("SP", 1), ("SPLIT", 0), ("SPLIT", 1), ("OPT",), ("JSON",), ("FLAT", 0), ("FLAT", 1)]
+    ops += [("SP", 0), ("SP", 1), ("SPLIT", 0), ("SPLIT", 1), ("OPT",), ("JSON",), ("FLAT", 0), ("FLAT", 1), ("CS", 0), ("CS", 1)]
     if tier == "thorough":
         ops += [("SLP", 0), ("SLP", 1)]
     return ops
@@ -58,12 +58,15 @@ class World:
         T = pd.Timestamp
         n1, n2, ni = Node("n1"), Node("n2"), Node("ni")
         self.capd = dict(start=[T("2020-12-31"), T("2021-01-01 12:00")], end=[T("2021-01-01 12:00"), T("2021-01-05")], values=[4.0, 3.0])
-        self.taked = dict(start=[T("2021-01-01 06:00")], end=[T("2021-01-03")], values=[10.0])
+        self.taked = dict(start=[T("2021-01-01 06:00")], end=[T("2021-01-03")], values=np.array([10.0]))   # float array, kept by reference
         self.con = Contract(name="con", nodes=n1, price="p", min_cap=-5.0, max_cap=self.capd, min_take=self.taked, extra_costs=0.1)
         self.sto = Storage("sto", nodes=n1, size=8.0, cap_in=1.0, cap_out=2.0, start_level=1.0, end_level=1.0, wacc=0.2,
                            start=T("2021-01-01 06:00"))
         self.tr = Transport(name="tr", nodes=[n1, n2], min_cap=0.0, max_cap=3.0, efficiency=0.9)
-        self.mk2 = SimpleContract(name="mk2", nodes=n2, price="q", min_cap=-4.0, max_cap=4.0)
+        self.cap_arr = np.array([4.0])   # capacity as float array (kept by reference)
+        self.mk2 = SimpleContract(name="mk2", nodes=n2, price="q", min_cap=-4.0, max_cap=self.cap_arr)
+        from eaopack.assets import Plant
+        self.pl = Plant(name="pl", nodes=[n1], price="q", min_cap=1.0, max_cap=3.0, min_runtime=12, min_downtime=6, time_already_off=18, start_costs=1.0)
         from eaopack.assets import ExtendedTransport
         self.xtake = dict(start=[T("2021-01-01")], end=[T("2021-01-05")], values=np.array([60.0]))   # values as float array (documented form)
         self.xtr = ExtendedTransport(name="xtr", nodes=[n1, n2], min_cap=0.0, max_cap=1.0, efficiency=0.95, max_take=self.xtake,
@@ -81,7 +84,7 @@ class World:
         # an asset alone at its node and active on the second day only: on the other grids that node has no dispatch at all
         n3 = Node("n3")
         self.late = SimpleContract(name="late", nodes=n3, price="p", min_cap=-1.0, max_cap=1.0, start=T("2021-01-02 06:00"), end=T("2021-01-03"))
-        self.pf = Portfolio([self.con, self.sto, self.ob, self.tr, self.xtr, self.mk2, self.st, self.late])
+        self.pf = Portfolio([self.con, self.sto, self.ob, self.tr, self.xtr, self.mk2, self.st, self.late, self.pl])
         self.fm = SimpleContract(name="fm", nodes=n1, price="p", min_cap=-5.0, max_cap=5.0)
         self.flat = Portfolio([self.fm, self.isto, self.itr])
         self.grids = []
@@ -103,7 +106,7 @@ class World:
 
     def objects(self):
         return dict(con=self.con, sto=self.sto, tr=self.tr, mk2=self.mk2, isto=self.isto, itr=self.itr, st=self.st, pf=self.pf,
-                    fm=self.fm, flat=self.flat, capd=self.capd, taked=self.taked, P=self.P, ob=self.ob, late=self.late, xtr=self.xtr, xtake=self.xtake, orders=self.orders, orders_df=self.orders_df,
+                    fm=self.fm, flat=self.flat, capd=self.capd, taked=self.taked, P=self.P, ob=self.ob, late=self.late, pl=self.pl, cap_arr=self.cap_arr, xtr=self.xtr, xtake=self.xtake, orders=self.orders, orders_df=self.orders_df,
                     ctx=(self.cur, self.last, None if self.last_op is None else "op"))
 
     def key(self):
@@ -159,6 +162,11 @@ class World:
         if kind == "JSON":
             s = eao.serialization.to_json(self.pf)
             return ("json_ok",)
+        if kind == "CS":   # cost vectors only (the path used by price samples, SLP and robust optimisation)
+            _, gi = op
+            cs = self.pf.create_cost_samples([self.P[1][gi]], self.grids[gi])
+            self.cur = gi
+            return ("costs", chash(np.round(np.asarray(cs[0], float), 9).tolist()))
         if kind == "FLAT":
             _, gi = op
             prob = self.flat.setup_optim_problem(self.P[0][gi], self.grids[gi])
